@@ -60,7 +60,7 @@ ASSUMPTIONS = ['expected values come from integer microsecond arithmetic on date
                'truncate (DONT-CARE)',
                'cases where now, t or now+w would leave datetime.min..max are not generated (DONT-CARE), except '
                'for normalize_time where OverflowError is demanded exactly when the UTC instant is unrepresentable']
-INTERPRETER_FLAGS = [[], ['-O'], [], ['-bb']]
+INTERPRETER_FLAGS = [[], ['-O'], ['-X', 'dev'], ['-bb']]
 SHARDS = {'quick': 4, 'thorough': 16}
 
 US = 10 ** 6
